@@ -422,6 +422,13 @@ func initExterns() {
 	externTable["sort.Strings"] = ret(func(e *Engine, s *State, x ssa.CallInstruction, args []Value) Value {
 		// the slice is permuted in place: new[i] == old[perm(i)] for a permutation perm of [0,len)
 		sl := args[0]
+		if e.cfg.CheckFrame && e.curFramed {
+			oname := e.siteName("FRAME", x, "extern-arg")
+			if ch := s.top().chain; ch != "" {
+				oname = ch + "/" + oname
+			}
+			e.oblige(s, "FRAME", oname, "sort.Strings writes through its slice argument: it must be handed memory allocated by this activation", x.Pos(), Or(freshCond(sl[0]), Eq(sl[0], Zero)))
+		}
 		old := s.heap.clone()
 		ver := e.nextVer()
 		s.havocFamily("elem(string)", ver)
